@@ -1,31 +1,143 @@
 #!/usr/bin/env python3
-"""Prints the mechanical parts of Facts/ExpectC17.lean (atom table, definition signatures, pinned hashes)
-from lean/TmVerif/Facts/GeneratedC17.lean."""
-import re, sys
-src = open(sys.argv[1] if len(sys.argv) > 1 else '/verif/lean/TmVerif/Facts/GeneratedC17.lean').read()
-def body(name):
+"""Regenerates the MECHANICAL part of lean/TmVerif/Facts/ExpectC17.lean (everything below the marker line)
+from lean/TmVerif/Facts/GeneratedC17.lean and from the hand-written tables above the marker:
+
+  c17AtomExpectations   one entry per guard atom, in id order (kind by the shape of the text)
+  c17AxiomAtomIds       for every entry of c17Axioms the ids of the atoms it mentions, in order of occurrence
+  c17KnownIds           for every entry of c17KnownInconsistent (name id, file id, define-block id, ids of `trues`)
+  c17NotPropIds         for every entry of c17NotPropositional (name id, file id, define-block id)
+  c17ExpectedDefSigs    the declaration sites
+  c17ExpectedHashes     digest of the use sites, hashes of the Go declarations the tables rely on
+
+Kernel evaluation of String equality is very slow, therefore the Lean obligations compute with ids only; the
+ids written here are HINTS that Props/C17.lean checks against the texts by `rfl` (C17_tables_resolve): a stale
+or wrong hint breaks that theorem, it cannot make an obligation pass.
+
+usage: python3 tools/c17expect.py            (rewrites ExpectC17.lean in place; run tools/factgen first)
+       python3 tools/c17expect.py --check    (exit 1 if the file would change)
+"""
+import os, re, sys
+
+ROOT = os.path.dirname(os.path.dirname(os.path.abspath(__file__)))
+FACTS = os.path.join(ROOT, 'lean', 'TmVerif', 'Facts', 'GeneratedC17.lean')
+EXPECT = os.path.join(ROOT, 'lean', 'TmVerif', 'Facts', 'ExpectC17.lean')
+MARK = '-- ==== everything below this line is written by tools/c17expect.py ===='
+STR = r'"(?:[^"\\]|\\.)*"'
+
+
+def block(src, name):
     i = src.index('def ' + name + ' ')
     j = src.index('\n]', i)
     return src[i:j]
-atoms = re.findall(r'⟨(\d+), ("(?:[^"\\]|\\.)*")⟩', body('c17Atoms'))
-atoms.sort(key=lambda a: int(a[0]))
-print('def c17AtomExpectations : List AtomExpect := [')
-rows = []
-for _, t in atoms:
-    raw = t[1:-1]
-    if raw.startswith('.Options.IsEnabled '): k = 'delegated'
-    elif raw.startswith('[local] '): k = 'localUse'
-    elif raw.startswith('[local-def] '): k = 'localDef'
-    elif raw.startswith('.Options.'): k = 'option'
-    else: k = 'shape'
-    rows.append(f'  ⟨{t}, .{k}⟩')
-print(',\n'.join(rows))
-print(']\n')
-sigs = re.findall(r'^  ("(?:[^"\\]|\\.)*"),?$', body('c17DefSigs'), re.M)
-print('def c17ExpectedDefSigs : List String := [')
-print(',\n'.join('  ' + s for s in sigs))
-print(']\n')
-hs = re.findall(r'⟨("(?:[^"\\]|\\.)*"), ("(?:[^"\\]|\\.)*")⟩', body('c17Hashes'))
-print('def c17ExpectedHashes : List TmplHash := [')
-print(',\n'.join(f'  ⟨{a}, {b}⟩' for a, b in hs))
-print(']')
+
+
+def entries(text):
+    """splits the body of a list definition into its `⟨ … ⟩` entries (each starts a line with two blanks)"""
+    parts = re.split(r'^  (?=⟨)', text, flags=re.M)
+    return parts[1:]
+
+
+def main():
+    src = open(FACTS).read()
+    exp = open(EXPECT).read()
+    if MARK not in exp:
+        sys.exit('marker line not found in ' + EXPECT)
+    hand = exp[:exp.index(MARK)]
+
+    atoms = [m.group(1) for m in re.finditer(r'⟨\d+, (' + STR + r')⟩', block(src, 'c17Atoms'))]
+    atom_id = {a: i for i, a in enumerate(atoms)}
+    names = re.findall(r'⟨(\d+), (' + STR + r'), (' + STR + r')⟩', block(src, 'c17Names'))
+    name_id = {(p, n): int(i) for i, p, n in names}
+    files = re.findall(r'⟨(\d+), (' + STR + r'),', block(src, 'c17Files'))
+    file_id = {f: int(i) for i, f in files}
+    tmpls = re.findall(r'^  (' + STR + r'),?$', block(src, 'c17Tmpls'), re.M)
+    tmpl_id = {t: i for i, t in enumerate(tmpls)}
+
+    out = [MARK, '']
+    out.append('/-- One entry per guard atom of the templates, in id order. -/')
+    out.append('def c17AtomExpectations : List AtomExpect := [')
+    rows = []
+    for t in atoms:
+        raw = t[1:-1]
+        if raw.startswith('.Options.IsEnabled '):
+            k = 'delegated'
+        elif raw.startswith('[local] '):
+            k = 'localUse'
+        elif raw.startswith('[local-def] '):
+            k = 'localDef'
+        elif raw.startswith('.Options.'):
+            k = 'option'
+        else:
+            k = 'shape'
+        rows.append(f'  ⟨{t}, .{k}⟩')
+    out.append(',\n'.join(rows))
+    out.append(']\n')
+
+    def missing(what, key):
+        print(f'c17expect: {what}: unknown {key} (hint 1000000 written; C17_tables_resolve will fail)', file=sys.stderr)
+        return 1000000
+
+    # axioms: atoms in order of occurrence (hypothesis, then conclusion)
+    rows = []
+    for e in entries(block(hand, 'c17Axioms')):
+        cut = max(e.rfind(', true,'), e.rfind(', false,'))
+        body = e[:cut] if cut >= 0 else e
+        ids = [atom_id[t] if t in atom_id else missing('c17Axioms', t) for t in re.findall(r'\ba (' + STR + ')', body)]
+        rows.append('  [' + ', '.join(map(str, ids)) + ']')
+    out.append('/-- Hints: ids of the atoms each entry of `c17Axioms` mentions, in order of occurrence. -/')
+    out.append('def c17AxiomAtomIds : List (List Nat) := [')
+    out.append(',\n'.join(rows))
+    out.append(']\n')
+
+    rows = []
+    for e in entries(block(hand, 'c17KnownInconsistent')):
+        strs = re.findall(STR, e)
+        _, pkg, name, fl, tm = strs[:5]
+        m = re.search(r'\[(.*?)\]', e[e.index(tm) + len(tm):], re.S)
+        trues = re.findall(STR, m.group(1)) if m else []
+        n = name_id.get((pkg, name), None)
+        n = n if n is not None else missing('c17KnownInconsistent', pkg + '.' + name)
+        f = file_id[fl] if fl in file_id else missing('c17KnownInconsistent', fl)
+        t = tmpl_id[tm] if tm in tmpl_id else missing('c17KnownInconsistent', tm)
+        tr = [atom_id[a] if a in atom_id else missing('c17KnownInconsistent', a) for a in trues]
+        rows.append(f'  ({n}, {f}, {t}, [' + ', '.join(map(str, tr)) + '])')
+    out.append('/-- Hints: (name id, file id, define-block id, ids of `trues`) of each entry of `c17KnownInconsistent`. -/')
+    out.append('def c17KnownIds : List (Nat × Nat × Nat × List Nat) := [')
+    out.append(',\n'.join(rows))
+    out.append(']\n')
+
+    rows = []
+    for e in entries(block(hand, 'c17NotPropositional')):
+        pkg, name, fl, tm = re.findall(STR, e)[:4]
+        n = name_id.get((pkg, name), None)
+        n = n if n is not None else missing('c17NotPropositional', pkg + '.' + name)
+        f = file_id[fl] if fl in file_id else missing('c17NotPropositional', fl)
+        t = tmpl_id[tm] if tm in tmpl_id else missing('c17NotPropositional', tm)
+        rows.append(f'  ({n}, {f}, {t})')
+    out.append('/-- Hints: (name id, file id, define-block id) of each entry of `c17NotPropositional`. -/')
+    out.append('def c17NotPropIds : List (Nat × Nat × Nat) := [')
+    out.append(',\n'.join(rows))
+    out.append(']\n')
+
+    sigs = re.findall(r'^  (' + STR + r'),?$', block(src, 'c17DefSigs'), re.M)
+    out.append('/-- Every declaration site: package.name | file | define block | kind | guard. -/')
+    out.append('def c17ExpectedDefSigs : List String := [')
+    out.append(',\n'.join('  ' + s for s in sigs))
+    out.append(']\n')
+
+    hs = re.findall(r'⟨(' + STR + r'), (' + STR + r')⟩', block(src, 'c17Hashes'))
+    out.append('/-- Digest of the use sites (count:sha256 prefix) and hashes of the Go declarations the tables rely on. -/')
+    out.append('def c17ExpectedHashes : List TmplHash := [')
+    out.append(',\n'.join(f'  ⟨{a}, {b}⟩' for a, b in hs))
+    out.append(']\n')
+    out.append('end TmVerif.Facts')
+    new = hand + '\n'.join(out) + '\n'
+    if '--check' in sys.argv:
+        sys.exit(0 if new == exp else 1)
+    if new != exp:
+        open(EXPECT, 'w').write(new)
+        print('rewrote', EXPECT)
+
+
+if __name__ == '__main__':
+    main()
